@@ -135,9 +135,37 @@ def arg_for(rule, v):
     return v[:i] + '0' * k + v[i + k:]
 
 
+class _WithOptions:
+    """The module with validate()/is_valid() bound to the options under which check digits are verified."""
+
+    def __init__(self, mod, kw):
+        self._mod = mod
+        self._kw = kw
+        self.__name__ = mod.__name__
+
+    def validate(self, number):
+        return self._mod.validate(number, **self._kw)
+
+    def is_valid(self, number):
+        return self._mod.is_valid(number, **self._kw)
+
+    def __getattr__(self, k):
+        return getattr(self._mod, k)
+
+
 def module_work(name, mod, tier, rng, viols, cells, counters, samples, probe, calls):
     evals = 0
-    gens = generators(mod)
+    import inspect
+    try:
+        params = inspect.signature(mod.validate).parameters
+    except (TypeError, ValueError):
+        params = {}
+    if 'validate_check_digits' in params and params['validate_check_digits'].default is False:
+        # the check digit is only verified on request (documented option): C05 speaks about the verifying mode
+        gens0 = generators(mod)
+        mod = _WithOptions(mod, {'validate_check_digits': True})
+        mod._gens = gens0
+    gens = getattr(mod, '_gens', None) or generators(mod)
     corpus = []
     for v in C.corpus(name, limit=60 if tier == 'quick' else 1500, rng=rng):
         o = C.outcome(mod.validate, v)
@@ -145,7 +173,7 @@ def module_work(name, mod, tier, rng, viols, cells, counters, samples, probe, ca
             corpus.append(o[1])
     if not corpus:
         return 0
-    synth = C.synth_valid(name, 30 if tier == 'quick' else 1200, rng, base=corpus)
+    synth = [x for x in C.synth_valid(name, 30 if tier == 'quick' else 1200, rng, base=corpus) if C.outcome(mod.validate, x) == ('ok', x)]
     # M0: which generator does validate() consult
     for gname, g in gens.items():
         probe.watch(_full.get((name, gname.split('[')[0]), g), (name, gname.split('[')[0]))
@@ -207,7 +235,12 @@ def module_work(name, mod, tier, rng, viols, cells, counters, samples, probe, ca
                     o = C.outcome(g, arg_for(rule, v))
                     shape = lambda t: ''.join('9' if ch.isdigit() else 'A' if ch.isalpha() else ch for ch in t)  # noqa: E731
                     agreeing_shapes = {shape(x) for x in vs[:40] if rule in per_v.get(x, ())}
-                    if o[0] == 'exc' and shape(v) in agreeing_shapes:
+                    used = set()
+                    if o[0] == 'exc':
+                        del calls[:]
+                        C.outcome(mod.validate, v)
+                        used = {tag[1] for (tag, _a, _r) in calls if tag[0] == name}
+                    if o[0] == 'exc' and gname.split('[')[0] in used:
                         add(viols, 'C05|%s|%s|generator-raises-on-valid-number' % (name, gname.split('[')[0]),
                             '%s accepts %r but %s(%r) raises %s (%s); the documented numbers of this length go through rule %s' % (
                                 name, v, gname, arg_for(rule, v), o[1], o[3], kind),
